@@ -61,6 +61,32 @@ def convert(execution) -> dict:
                         mark(sub.get("body", []), sp + "/")
                 i += len(extra)
     mark(prog["nodes"], "")
+    wfc_nodes = {}
+    custom_val = set()
+
+    def collect(nodes, prefix):
+        i = 0
+        for node in nodes:
+            if node["k"] == "log":
+                continue
+            i += 1
+            path = f"{prefix}{i}"
+            if node["k"] == "wfc":
+                wfc_nodes[path] = node
+            if node["k"] == "step" and node.get("val") is not None:
+                custom_val.add(path)
+            if node["k"] == "child":
+                collect(node.get("body", []), path + "/")
+            if node["k"] == "cb":
+                extra = [n for n in node.get("between", []) if n["k"] != "log"]
+                comps = path.split("/")
+                for j, sub in enumerate(extra, 1):
+                    if sub["k"] == "wfc":
+                        wfc_nodes["/".join(comps[:-1] + [str(int(comps[-1]) + j)])] = sub
+                    if sub["k"] == "step" and sub.get("val") is not None:
+                        custom_val.add("/".join(comps[:-1] + [str(int(comps[-1]) + j)]))
+                i += len(extra)
+    collect(prog["nodes"], "")
 
     def idx_of_path(path, for_delivery=False):
         k = by_path.get(path)
@@ -75,9 +101,18 @@ def convert(execution) -> dict:
         ik = d["kind"]
         if kind == "value":
             if ik == "STEP":
+                if d["path"] in custom_val:
+                    return -1          # the scripted value does not encode the attempt: symbol not projected
                 m = re.search(r"'a'=>int:(\d+)", rep)
                 return int(m.group(1)) if m else -2
             if ik == "WFC":
+                node = wfc_nodes.get(d["path"])
+                if node is not None and "states" in node:
+                    from .interp import typed_repr, wfc_state
+                    for kk in range(node.get("polls", 1), 0, -1):
+                        if typed_repr(wfc_state(node, kk)) == rep:
+                            return kk
+                    return -2
                 m = re.search(r"'n'=>int:(\d+)", rep)
                 return int(m.group(1)) if m else -2
             if ik == "WAIT":
@@ -94,13 +129,16 @@ def convert(execution) -> dict:
             return -1
         if ik in ("STEP", "WFC"):
             m = re.search(r" a(\d+)$", msg)
-            return int(m.group(1)) if m else -2
+            if m:
+                return int(m.group(1))
+            return -1 if "previously interrupted" in msg else -2
         if ik == "CBRESULT":
             return d["cb"] if "Callback must exist" not in msg else 0
         return k
 
     out = []
     pending_call = None
+    pending_applied = False
     for e in execution.trace:
         n = e["ev"]
         if n == "InvStart":
@@ -115,6 +153,9 @@ def convert(execution) -> dict:
                 else:
                     raise Unsupported(f"update for unknown id {oid[:8]}")
             pending_call = ev("Api", us=us, ok=True)
+            pending_applied = False
+        elif n == "ApiApplied":
+            pending_applied = True
         elif n == "ApiReturn":
             if pending_call is None:
                 continue
@@ -146,8 +187,9 @@ def convert(execution) -> dict:
             out.append(ev("EnvExt", i=by_id[e["id"]], o=e["outcome"]))
         elif n == "InvEnd":
             if pending_call is not None:
-                # the backend applied the batch but the invocation died before the response arrived
-                out.append(pending_call)
+                if pending_applied:
+                    # the backend applied the batch but the invocation died before the response arrived
+                    out.append(pending_call)
                 pending_call = None
             o = e["outcome"]
             if o not in ("SUCCEEDED", "FAILED", "PENDING", "RAISED", "CRASHED"):
